@@ -10,6 +10,8 @@ import (
 	"sort"
 	"strings"
 
+	"github.com/TheManticoreProject/Manticore/network/smb/smb_v10/message/commands/andx"
+	"github.com/TheManticoreProject/Manticore/network/smb/smb_v10/message/commands/codes"
 	ci "github.com/TheManticoreProject/Manticore/network/smb/smb_v10/message/commands/command_interface"
 
 	"verif/mon"
@@ -533,6 +535,54 @@ func andxIsolation(structs []smbgen.Struct) {
 	}
 }
 
+// andxRoundTrip: the AndX block is part of every AndX command (its first two parameter words):
+// whatever block the command carries when it is encoded must be the block of the structure
+// decoded from those bytes — also {0xFF, r, offset != 0}, the end of a chain whose offset
+// field still holds a value.
+func andxRoundTrip(structs []smbgen.Struct) {
+	blocks := [][3]uint16{{0xFF, 0, 0}, {0xFF, 0x5A, 0x0102}, {0xFF, 0, 0xFFFF}, {0xA2, 0, 0x0040}, {0x2E, 0xFF, 0x8001}, {0x00, 0x01, 0x0001}, {0x75, 0x80, 0x7FFF}}
+	for _, s := range structs {
+		if !s.New().IsAndX() {
+			continue
+		}
+		rels := smbgen.Relations(s.Name)
+		for bi, b := range blocks {
+			c := s.New()
+			smbgen.Fill(c, rels, r.Rand(fmt.Sprintf("andxrt|%s|%d", s.Name, bi)), smbgen.ModeRandom, 12)
+			x := andx.NewAndX()
+			x.AndXCommand, x.AndXReserved, x.AndXOffset = codes.CommandCode(b[0]), uint8(b[1]), b[2]
+			c.SetAndX(x)
+			smbgen.AlignPads(c, rels)
+			w, err, pan, _, _ := marshal(c)
+			r.Eval(1)
+			if pan || err != nil {
+				continue // judged by roundTrip
+			}
+			cs := map[string]any{"struct": s.Name, "andx_command": b[0], "andx_reserved": b[1], "andx_offset": b[2], "wire": mon.FullHex(w)}
+			d := s.New()
+			var uerr error
+			pan, _, _ = mon.Guard(func() { _, uerr = d.Unmarshal(append([]byte{}, w...)) })
+			r.Eval(1)
+			if pan || uerr != nil {
+				continue // judged by roundTrip
+			}
+			g := d.GetAndX()
+			switch {
+			case g == nil:
+				r.Violation(s.Name+":field:AndX", fmt.Sprintf("the decoded %s has no AndX block; the encoded one was {%#02x %#02x %#04x}", s.Name, b[0], b[1], b[2]), cs)
+			case uint16(g.AndXCommand) != b[0] || uint16(g.AndXReserved) != b[1] || g.AndXOffset != b[2]:
+				r.Violation(s.Name+":field:AndX", fmt.Sprintf("AndX block {%#02x %#02x %#04x} decodes as {%#02x %#02x %#04x}", b[0], b[1], b[2], uint8(g.AndXCommand), g.AndXReserved, g.AndXOffset), cs)
+			}
+			w2, err2, pan2, _, _ := marshal(d)
+			r.Eval(1)
+			if !pan2 && err2 == nil && !bytes.Equal(w, w2) && g != nil && uint16(g.AndXCommand) == b[0] && uint16(g.AndXReserved) == b[1] && g.AndXOffset == b[2] {
+				r.Violation(s.Name+":reencode", fmt.Sprintf("re-encoding a decoded %s with AndX block {%#02x %#02x %#04x} differs", s.Name, b[0], b[1], b[2]), cs)
+			}
+			r.Nontrivial(fmt.Sprintf("andxrt|%s|%d", s.Name, bi))
+		}
+	}
+}
+
 // perturb complements every integer leaf below v (lengths of slices and strings unchanged).
 func perturb(v reflect.Value) {
 	switch v.Kind() {
@@ -604,6 +654,7 @@ func main() {
 	}
 	if only == "" {
 		andxIsolation(structs)
+		andxRoundTrip(structs)
 	}
 	heldDecoded.final()
 	sort.Strings(names)
